@@ -20,7 +20,7 @@ package remedies
 
 //@ func getUpdatedHeaders
 //@   prop C12
-//@   requires remedyConfig != nil
+//@   requires remedyConfig != nil && (remedyConfig.GroupQuotaAllocation != nil ==> remedyConfig.GroupQuotaAllocation.GroupBy != nil)
 //@   allocates map
 //@   modifies now
 //@   loop 1 invariant[dom]  forall(k, string, in(k, headers) <==> seen1[k])
@@ -102,3 +102,15 @@ package remedies
 //@   ensures[retry-needs-attempts] seq: typeis(result0, *actions.ModifyResponseAction) ==> (old(in(onResponse.SequenceID, rpCache(plugin).cache)) && retryState.attemptsLeft == old(rpCache(plugin).cache[onResponse.SequenceID].value.attemptsLeft)) || (onResponse.ID == onResponse.SequenceID && retryState.attemptsLeft == remedyConfig.Attempts)
 //@   ensures[retry-consumes-attempt] seq: typeis(result0, *actions.ModifyResponseAction) ==> (retryState.attemptsLeft - 1 >= 1 ==> in(onResponse.SequenceID, rpCache(plugin).cache) && rpCache(plugin).cache[onResponse.SequenceID].value.attemptsLeft == retryState.attemptsLeft - 1) && (retryState.attemptsLeft - 1 < 1 ==> !in(onResponse.SequenceID, rpCache(plugin).cache))
 //@   ensures[others-untouched] seq: forall(s, string, s != onResponse.SequenceID ==> (in(s, rpCache(plugin).cache) <==> old(in(s, rpCache(plugin).cache))) && rpCache(plugin).cache[s] == old(rpCache(plugin).cache[s]))
+
+// ---------------------------------------------------------------- C09: group isolation of the throttling counters
+// The counter of a group is keyed by the group header's (obfuscated) VALUE exactly as the quota-allocation table sees it:
+// lower-cased header name, a colon, the trimmed value - nothing else is folded, so two values that the allocation table
+// keeps apart never share a counter.
+//@ pure Obfuscator.ObfuscateString
+//@ func buildGroupID
+//@   prop C09
+//@   requires remedyConfig != nil && (remedyConfig.GroupQuotaAllocation != nil ==> remedyConfig.GroupQuotaAllocation.GroupBy != nil)
+//@   modifies nothing
+//@   ensures[ungrouped-without-allocation] remedyConfig.GroupQuotaAllocation == nil ==> result1 == limit.Ungrouped && result0 == limit.UngroupedLimit
+//@   ensures[own-group-key] remedyConfig.GroupQuotaAllocation != nil ==> result1 == limit.Grouped && result0 == strings.ToLower(groupHeaderName) + ":" + strings.TrimSpace(obfuscator.ObfuscateString(headerValue))
